@@ -84,6 +84,8 @@ def write_evidence(prop, tier, seed, level, coverage, assumptions, wall_s, n_vio
 
 
 def main(argv=None):
+    import logging
+    logging.disable(logging.CRITICAL)
     ap = argparse.ArgumentParser()
     ap.add_argument("prop")
     ap.add_argument("--tier", default=os.environ.get("VERIF_TIER") or "quick", choices=["quick", "thorough"])
